@@ -1,14 +1,17 @@
 #!/bin/bash
-# seed_check.sh <id> [tier] : apply the seeded change to /repo, run the owning property's check, undo the change.
+# seed_check.sh <id> [tier] : run the owning property's check against a copy of /repo with the seeded change applied.
+# (Equivalent to `git -C /repo apply <patch>; check; git -C /repo checkout -- .`, but /repo itself stays
+# untouched, so background sweeps that read /repo are not disturbed.)
 set -u
 id=$1; tier=${2:-quick}
 d=/verif/seeded/$id
-prop=$(cat "$d/.property" 2>/dev/null || python3 -c "import json;print(json.load(open('$d/meta.json'))['property'])")
+prop=$(python3 -c "import json;print(json.load(open('$d/meta.json'))['property'])" 2>/dev/null || cat "$d/.property")
+W=$(mktemp -d /tmp/verif-seedrepo-XXXXXX)
+trap 'rm -rf "$W"' EXIT
+rsync -a /repo/ "$W"/
+(cd "$W" && git checkout -q -- . 2>/dev/null; git apply "$d/patch.diff") || { echo "patch does not apply"; exit 2; }
 cd /verif
-if [ -n "$(git -C /repo status --porcelain)" ]; then echo "refusing: /repo is dirty"; exit 2; fi
-git -C /repo apply "$d/patch.diff" || { echo "patch does not apply"; exit 2; }
-out=$(VERIF_SEED=${VERIF_SEED:-1} ./bin/verif check "$prop" --tier "$tier" 2>&1); rc=$?
-git -C /repo checkout -- .
+out=$(VERIF_REPO="$W" VERIF_SEED=${VERIF_SEED:-1} ./bin/verif check "$prop" --tier "$tier" 2>&1); rc=$?
 echo "$out" | grep -E "^(VIOLATION|KNOWN|RESULT|TROUBLE)" | cut -c1-300
 echo "$out" | grep -A3 "^VIOLATION" | grep -E "oracle=" | cut -c1-200 | head -5
 echo "SEEDED $id property=$prop exit=$rc $([ $rc = 1 ] && echo CAUGHT || echo MISSED)"
